@@ -302,7 +302,8 @@ extern int mpt_data_convert_uint16(const uint16_t *from, MPT_TYPE(type) type, vo
 			if (dest) *((double *) dest) = val;
 			return sizeof(double);
 #ifdef _MPT_FLOAT_EXTENDED_H
-		case 'e': *((long double *) dest) = val;
+		case 'e':
+			if (dest) *((long double *) dest) = val;
 			return sizeof(long double);
 #endif
 		case MPT_type_toVector('q'):
